@@ -555,6 +555,9 @@ class Check(PropertyCheck):
     # ------------------------------------------------------------------ C. whole documents
     def doc_cases(self, n: int, nplain: int) -> List[Dict[str, Any]]:
         cases: List[Dict[str, Any]] = []
+        for doc in G.DOC_CORPUS:
+            for fmt in D.FORMATS:
+                cases.append({'doc': doc, 'fmt': fmt})
         for _ in range(n):
             # the same intended document in every format (blocks a format cannot express are regenerated for it)
             seed = self.rng.randrange(1 << 30)
